@@ -235,7 +235,26 @@ def push_global(resolve, module, name):
         return b"c" + module.encode() + b"\n" + name.encode() + b"\n"
     if resolve == "STACK_GLOBAL":
         return _sbu(module) + _sbu(name) + b"\x93"
+    if resolve == "GLOBAL-memo-collide":
+        # a benign global is stored at explicit index 1 of an empty memo; MEMOIZE of the real one then
+        # writes memo[len(memo)] = memo[1] and overwrites it (pickle VM semantics); BINGET 1 fetches it
+        return (b"ccollections\nOrderedDict\nq\x010" + b"c" + module.encode() + b"\n" + name.encode() + b"\n" +
+                b"\x940h\x01")
+    if resolve == "STACK_GLOBAL-memo-collide":
+        return (_sbu("collections") + b"q\x010" + _sbu(module) + b"\x940h\x01" + _sbu(name) + b"\x93")
+    if resolve == "STACK_GLOBAL-via-memo":
+        return (_sbu(module) + b"q\x050" + _sbu(name) + b"r\x00\x01\x00\x000" + b"h\x05" + b"j\x00\x01\x00\x00" + b"\x93")
     raise ValueError(resolve)
+
+
+# stdlib submodules whose parent package a fresh interpreter has not imported: resolving them "to have a
+# look" is observable as an import of the parent package
+UNLOADED_STDLIB = [("wsgiref.util", "FileWrapper"), ("xmlrpc.client", "ServerProxy"), ("dbm.dumb", "open"),
+                   ("sqlite3.dbapi2", "connect"), ("xml.dom.minidom", "parse"), ("unittest.mock", "Mock"),
+                   ("multiprocessing.dummy", "Pool"), ("email.mime.text", "MIMEText"), ("json.tool", "main"),
+                   ("logging.handlers", "SocketHandler"), ("concurrent.futures.process", "ProcessPoolExecutor"),
+                   ("curses.ascii", "isalpha"), ("wsgiref.nosuchsub", "x"), ("xml.etrea.ElementTree", "parse"),
+                   ("turtledemo.clock", "main"), ("pydoc_data.topics", "topics"), ("lib2to3.pgen2.driver", "Driver")]
 
 
 def arg_bytes(args):
@@ -263,6 +282,8 @@ def make_call(resolve, callop, module, name, args):
             return None
         return b"(" + ab + b"i" + module.encode() + b"\n" + name.encode() + b"\n"
     if resolve == "INST":
+        return None
+    if resolve not in ("GLOBAL", "STACK_GLOBAL") and resolve.split("-")[0] not in ("GLOBAL", "STACK_GLOBAL"):
         return None
     g = push_global(resolve, module, name)
     if callop == "REDUCE":
